@@ -107,7 +107,31 @@ Proof.
   unfold st in E. unfold with_buf. cbn [rest buf errs]. unfold byte, bytes in *. rewrite E. cbn [errs last_err app]. eexists _, _. reflexivity.
 Qed.
 
-Inductive lexeme := W (c : byte) (tl : bytes) | T1 (c : byte) (k : N) | Arrow | Num (c : byte) (ds : bytes) | Str (body : bytes).
+(* a line comment: // and the rest of the line, newline included *)
+Lemma split_nl_body : forall body acc r, Forall (fun x => N.eqb x 10 = false) body ->
+  split_nl (body ++ 10%N :: r) acc = (rev acc ++ body ++ [10%N], Some r).
+Proof.
+  induction body as [|c body IH]; intros acc r H.
+  - cbn [app split_nl N.eqb Pos.eqb rev]. reflexivity.
+  - inversion H as [|? ? Hc Hb]; subst. cbn [app split_nl]. rewrite Hc. refine (eq_trans (IH (c :: acc) r Hb) _). cbn [rev]. rewrite <- app_assoc. reflexivity.
+Qed.
+Lemma next_linec body ws r lb lr : Forall (fun x => N.eqb x 10 = false) body -> Forall (fun x => is_hws x = true) ws ->
+  exists lb' lr', next (st (ws ++ 47%N :: 47%N :: body ++ 10%N :: r) lb lr)
+                  = R (Some {| kind := kLineC; concrete := 47%N :: 47%N :: body ++ [10%N] |}) (st r lb' lr').
+Proof.
+  intros Hb Hws. unfold next. cbn [buf rest st].
+  assert (El : S (S (length (ws ++ 47%N :: 47%N :: body ++ 10%N :: r))) = length ws + S (S (S (S (length (body ++ 10%N :: r))))))
+    by (unfold byte in *; rewrite !app_length; simpl length; rewrite ?app_length; simpl length; lia).
+  rewrite El.
+  destruct (find_skip_ws ws (S (S (S (S (length (body ++ 10%N :: r)))))) (47%N :: 47%N :: body ++ 10%N :: r) lb lr Hws) as (lb1 & lr1 & ->).
+  cbn [find]. unfold tr_read_byte, st. cbn [buf read_byte rest with_buf errs failing].
+  change (skips NRoot 47%N) with false. change (succ NRoot 47%N) with (Go NSlash). cbn [app].
+  change (skips NSlash 47%N) with false. change (succ NSlash 47%N) with LineC. cbv beta iota zeta.
+  unfold line_comment, read_bytes_nl, with_buf. cbn [buf rest errs]. rewrite (split_nl_body body [] r Hb). cbn [rev app errs last_err].
+  eexists _, _. reflexivity.
+Qed.
+
+Inductive lexeme := W (c : byte) (tl : bytes) | T1 (c : byte) (k : N) | Arrow | Num (c : byte) (ds : bytes) | Str (body : bytes) | LC (body : bytes).
 Definition lex_ok (l : lexeme) : Prop :=
   match l with
   | W c tl => is_letter c = true /\ Forall (fun x => is_idc x = true) tl
@@ -115,6 +139,7 @@ Definition lex_ok (l : lexeme) : Prop :=
   | Arrow => True
   | Num c ds => is_digit c = true /\ Forall (fun x => is_digit x = true) ds
   | Str body => Forall (fun x => plain x = true) body
+  | LC body => Forall (fun x => N.eqb x 10 = false) body
   end.
 Definition tok_of (l : lexeme) : token :=
   match l with
@@ -123,9 +148,10 @@ Definition tok_of (l : lexeme) : token :=
   | Arrow => {| kind := kArrow; concrete := [45%N; 62%N] |}
   | Num c ds => {| kind := kInt; concrete := c :: ds |}
   | Str body => {| kind := kString; concrete := 34%N :: body ++ [34%N] |}
+  | LC body => {| kind := kLineC; concrete := 47%N :: 47%N :: body ++ [10%N] |}
   end.
 Definition text_of (l : lexeme) : bytes :=
-  match l with W c tl => c :: tl | T1 c _ => [c] | Arrow => [45%N; 62%N] | Num c ds => c :: ds | Str body => 34%N :: body ++ [34%N] end.
+  match l with W c tl => c :: tl | T1 c _ => [c] | Arrow => [45%N; 62%N] | Num c ds => c :: ds | Str body => 34%N :: body ++ [34%N] | LC body => 47%N :: 47%N :: body ++ [10%N] end.
 Fixpoint render (l : list (bytes * lexeme)) (tail : bytes) : bytes :=
   match l with
   | [] => tail
@@ -201,7 +227,7 @@ Proof.
   - cbn [length plus render map app]. apply next_results_eof. exact Ht.
   - inversion H as [|? ? [Hw Hx] Hr]; subst. cbn [fst snd] in *. cbn [length plus next_results render map app].
     cbn [sep_ok] in Hs. destruct Hs as [Hend Hsr].
-    destruct x as [c tl|c k| |c ds|body]; cbn [lex_ok text_of tok_of needs_end] in *.
+    destruct x as [c tl|c k| |c ds|body|body]; cbn [lex_ok text_of tok_of needs_end] in *.
     + destruct Hx as [Hc Htl].
       destruct (render_after_word r tail Hr Hend) as (d & rest0 & Er & Hd & _).
       rewrite Er. cbn [app].
@@ -220,6 +246,9 @@ Proof.
       cbn [app] in E |- *. unfold byte, bytes in *. rewrite E. cbn [errs st]. f_equal. rewrite <- Er. apply IH; assumption.
     + cbn [app]. rewrite <- app_assoc. cbn [app].
       destruct (next_string body ws (render r tail) lb lr Hx Hw) as (lb' & lr' & E). unfold byte, bytes in *. rewrite E. cbn [errs st]. f_equal.
+      apply IH; assumption.
+    + cbn [app]. rewrite <- app_assoc. cbn [app].
+      destruct (next_linec body ws (render r tail) lb lr Hx Hw) as (lb' & lr' & E). unfold byte, bytes in *. rewrite E. cbn [errs st]. f_equal.
       apply IH; assumption.
 Qed.
 
